@@ -20,17 +20,21 @@ Ltac Zify.zify_post_hook ::= Z.to_euclidean_division_equations.
 Definition ucb_ok (S : list (list byte * Z)) (i : icb) (ty : ptype) (p : list byte) : Prop :=
   match i with IUser id => ty = APP /\ In (p, id) S | IFrag _ _ => ty = APP_FRAGMENT | _ => True end.
 
+(* fragments carry their 6-byte header (FragmentSender.build) *)
+Definition ty_ok (ty : ptype) (p : list byte) : Prop :=
+  ty <> UNKNOWN /\ (ty = APP_FRAGMENT -> (6 <= length p)%nat).
+
 Definition QkS (S : list (list byte * Z)) (k : cb) : Prop :=
-  match k with Plain _ => True | Retry _ _ ty p i => ty <> UNKNOWN /\ ucb_ok S i ty p end.
+  match k with Plain _ => True | Retry _ _ ty p i => ty_ok ty p /\ ucb_ok S i ty p end.
 
 (* a RetrySender re-queues the message with the same message sequence number, type and payload *)
 Definition QmS (S : list (list byte * Z)) (m : pmsg) : Prop :=
-  m_type m <> UNKNOWN /\
+  ty_ok (m_type m) (m_payload m) /\
   match m_cb m with
   | None => True
   | Some (Plain i) => ucb_ok S i (m_type m) (m_payload m)
   | Some (Retry rid mseq ty p i) =>
-      m_seq m = mseq /\ m_type m = ty /\ m_payload m = p /\ ty <> UNKNOWN /\ ucb_ok S i ty p
+      m_seq m = mseq /\ m_type m = ty /\ m_payload m = p /\ ty_ok ty p /\ ucb_ok S i ty p
   end.
 
 Lemma QS_stamp S now m : QmS S m -> QmS S (stamp now m).
@@ -45,19 +49,28 @@ Qed.
 Lemma QS_requeue S rid mseq ty p i : QkS S (Retry rid mseq ty p i) ->
   QmS S {| m_seq := mseq; m_type := ty; m_payload := p; m_cb := Some (Retry rid mseq ty p i);
            m_retry := RTimeout; m_atime := 0 |}.
-Proof. intros [A B]. split; cbn; auto. Qed.
+Proof. intros [A B]. split; [exact A|]. cbn. auto. Qed.
 
-Lemma QS_sys S c ty p k : ty <> UNKNOWN -> sys_icb k -> QmS S (new_msg c ty p RNone k).
-Proof. intros Ht Hk. split; [exact Ht|]. destruct k; try destruct Hk; cbn; exact I. Qed.
+Lemma QS_sys S c ty p k : is_hs ty = true -> sys_icb k -> QmS S (new_msg c ty p RNone k).
+Proof.
+  intros Ht Hk. assert (Hok : ty_ok ty p) by (split; intros E; rewrite E in Ht; discriminate Ht).
+  split; [exact Hok|].
+  destruct k; try destruct Hk; cbn; exact I.
+Qed.
 
-Lemma QS_frag S c fid idx p r : QmS S (new_msg c APP_FRAGMENT p r (IFrag fid idx)).
-Proof. split; [discriminate|]. unfold new_msg, mk_cb. cbn [m_cb m_seq m_type m_payload]. destruct r; cbn; repeat split; auto; discriminate. Qed.
+Lemma QS_frag S c fid i n f r :
+  QmS S (new_msg c APP_FRAGMENT (be 2 fid ++ be 2 (1 + i) ++ be 2 n ++ f) r (IFrag fid i)).
+Proof.
+  assert (Hok : ty_ok APP_FRAGMENT (be 2 fid ++ be 2 (1 + i) ++ be 2 n ++ f)).
+  { split; [discriminate|]. intros _. rewrite !app_length, !be_length. lia. }
+  split; [exact Hok|]. unfold new_msg, mk_cb. cbn [m_cb m_seq m_type m_payload]. destruct r; cbn; auto.
+Qed.
 
 Lemma QS_nu S m : QmS S m -> m_type m <> UNKNOWN.
-Proof. intros [H _]. exact H. Qed.
+Proof. intros [[H _] _]. exact H. Qed.
 
 Lemma QkS_nu S k : QkS S k -> cbk_ok k.
-Proof. destruct k; cbn; [auto|intros [H _]; exact H]. Qed.
+Proof. destruct k; cbn; [auto|intros [[H _] _]; exact H]. Qed.
 
 Lemma ucb_ok_mono S S' i ty p : (forall y, In y S -> In y S') -> ucb_ok S i ty p -> ucb_ok S' i ty p.
 Proof. intros H. destruct i; cbn; auto. intros [A B]. auto. Qed.
@@ -68,7 +81,8 @@ Proof. intros H. destruct k; cbn; [auto|]. intros [A B]. split; [exact A|eapply 
 Lemma QmS_mono S S' m : (forall y, In y S -> In y S') -> QmS S m -> QmS S' m.
 Proof.
   intros H [A B]. split; [exact A|]. destruct (m_cb m) as [[i|rid mseq ty p i]|]; [eapply ucb_ok_mono; eassumption| |exact I].
-  destruct B as (B1 & B2 & B3 & B4 & B5). repeat split; auto. eapply ucb_ok_mono; eassumption.
+  destruct B as (B1 & B2 & B3 & B4 & B5). split; [exact B1|]. split; [exact B2|]. split; [exact B3|]. split; [exact B4|].
+  eapply ucb_ok_mono; eassumption.
 Qed.
 
 Lemma MI_mono S S' c : (forall y, In y S -> In y S') -> MI (QmS S) (QkS S) c -> MI (QmS S') (QkS S') c.
@@ -82,8 +96,9 @@ Qed.
 (* the message an unfragmented application send creates *)
 Lemma QS_send S c p r k : user_icb k -> (forall id, k = IUser id -> In (p, id) S) -> QmS S (new_msg c APP p r k).
 Proof.
-  intros Hk Hin. split; [discriminate|]. unfold new_msg, mk_cb. cbn [m_cb m_seq m_type m_payload].
-  destruct r; destruct k; try destruct Hk; cbn; auto; repeat split; auto; discriminate.
+  intros Hk Hin. assert (Hok : ty_ok APP p) by (split; [discriminate|intros H; discriminate H]).
+  split; [exact Hok|]. unfold new_msg, mk_cb. cbn [m_cb m_seq m_type m_payload].
+  destruct r; destruct k; try destruct Hk; cbn; auto 8.
 Qed.
 
 Definition step_linkS S := step_link (QmS S) (QkS S) (QS_stamp S) (QS_cb S) (QS_requeue S) (QS_nu S) (QkS_nu S) (QS_sys S) (QS_frag S).
@@ -99,7 +114,8 @@ Definition CInv (M : mnet) : Prop :=
 Record SInv (M : mnet) : Prop := {
   s_mi : MI (QmS (m_sent M)) (QkS (m_sent M)) (nA (g_net (m_g M)));
   s_pk : PK (nA (g_net (m_g M)));
-  s_c : CInv M }.
+  s_c : CInv M;
+  s_wire : forall i d, In (i, d) (g_AB (m_g M)) -> Forall frag_ok (dg_msgs d) }.
 
 Lemma wire_next S K c n : AInv S K c n -> seq_succ (c_seq_send c) = wire (n + 1).
 Proof.
@@ -108,7 +124,7 @@ Qed.
 
 Theorem SInv_step e S K M vj : J S K (m_g M) -> SInv M -> wf3_ev e M vj -> SInv (mstep e M vj).
 Proof.
-  intros HJ [HN HP HC] Hwf0. pose proof Hwf0 as [Hwf2 Hwf]. destruct vj as [[v l] js]. unfold wf3_ev, wf3x_ev, msg_ev in *. cbn [fst snd] in *. destruct v as [x|x].
+  intros HJ [HN HP HC HWi] Hwf0. pose proof Hwf0 as [Hwf2 Hwf]. destruct vj as [[v l] js]. unfold wf3_ev, wf3x_ev, msg_ev in *. cbn [fst snd] in *. destruct v as [x|x].
   - (* A moves *)
     destruct Hwf2 as [Hop _]. apply ev_open2_eq in Hop.
     pose proof HJ as [HA HAB _ _ _ _ _ _].
@@ -120,7 +136,7 @@ Proof.
       intros id ->. subst S'. cbn. left. reflexivity. }
     unfold mstep, CInv. cbn [fst snd gstep m_g m_sent m_st].
     destruct (step e (nA (g_net (m_g M))) x) as [a' o] eqn:E.
-    destruct (step_linkS S' e S K _ _ x a' o Hop Hnew HN' HP HA E) as (N' & P' & L').
+    destruct (step_linkS S' e S K _ _ x a' o Hop Hnew HN' HP HA E) as (N' & P' & L' & W').
     destruct (step_emit_idx _ _ _ _ _ _ _ _ Hop HA E) as [Hmono_n Hem].
     pose proof (wire_next _ _ _ _ HA) as Hnext.
     pose proof (AInv_fresh _ _ _ _ HA) as Hfresh.
@@ -140,6 +156,9 @@ Proof.
         -- exfalso. destruct (HAB _ _ Hin) as [Hi _]. rewrite Hnext in Hs.
            apply (wire_neq_near i (g_nA (m_g M) + 1)); [unfold RING in *; lia|exact Hs].
         -- apply in_map_iff in Hin as (d0 & Hd0 & Hin). injection Hd0 as _ <-. exact (Hall k Hk d0 Hin).
+    + intros i d Hin. apply in_app_or in Hin as [Hin|Hin]; [exact (HWi i d Hin)|].
+      apply in_map_iff in Hin as (d0 & Hd0 & Hin). injection Hd0 as _ <-.
+      apply Forall_forall. intros w Hw. destruct (W' d0 Hin w Hw) as (m & [[_ Hf] _] & <-). exact Hf.
   - (* B moves: nothing of the sender changes *)
     unfold mstep, CInv. cbn [fst snd gstep m_g m_sent m_st].
     destruct (step e (nB (g_net (m_g M))) x) as [b' o] eqn:E.
@@ -153,7 +172,7 @@ Theorem custody_meaning M i dA ks k id :
   dget (wire i) (c_pcbs (nA (g_net (m_g M)))) = Some ks -> In k ks -> cb_user k id ->
   exists w, In w (dg_msgs dA) /\ w_type w = APP /\ In (w_payload w, id) (m_sent M).
 Proof.
-  intros [_ _ HC] HAB Hrec Hg Hk Hu. destruct (HC i dA ks k HAB Hrec Hg Hk) as (m & [_ Hq] & Hcb & Hm).
+  intros [_ _ HC _] HAB Hrec Hg Hk Hu. destruct (HC i dA ks k HAB Hrec Hg Hk) as (m & [_ Hq] & Hcb & Hm).
   rewrite Hcb in Hq. exists (wmsg_of m). split; [exact Hm|]. cbn [wmsg_of w_type w_payload].
   destruct k as [i0|rid mseq ty p0 i0]; cbn [cb_user] in Hu.
   - destruct i0; try destruct Hu. cbn in Hq. exact Hq.
@@ -171,9 +190,19 @@ Record BInv (M : mnet) : Prop := {
 Lemma skipn_app_exact {A} (a b : list A) : skipn (length a) (a ++ b) = b.
 Proof. induction a as [|x a IH]; [reflexivity|exact IH]. Qed.
 
-Theorem BInv_step e M vj : BInv M -> wf3_ev e M vj -> BInv (mstep e M vj).
+Lemma accepts_opens c x d : accepts c x = Some d -> dgram_in x = Some d /\ opens c d = true.
 Proof.
-  intros [HW Hrec HD Hacc] Hwf0. pose proof Hwf0 as [Hwf2 Hwf]. destruct vj as [[v l] js]. unfold wf3_ev, wf3x_ev, msg_ev in *. cbn [fst snd] in *. destruct v as [x|x].
+  unfold accepts. destruct (pre_recv c x) as [[c0 d0]|] eqn:Ep; [|discriminate].
+  destruct (opens c0 d0 && _) eqn:Eg; [|discriminate]. intros H. injection H as <-.
+  destruct (pre_recv_facts _ _ _ _ Ep) as (A & _ & B & _). split; [exact A|].
+  rewrite <- B. apply andb_prop in Eg as [Eg _]. exact Eg.
+Qed.
+
+Theorem BInv_step e M vj :
+  (forall i d, In (i, d) (g_AB (m_g M)) -> Forall frag_ok (dg_msgs d)) ->
+  BInv M -> wf3_ev e M vj -> BInv (mstep e M vj).
+Proof.
+  intros HWi [HW Hrec HD Hacc] Hwf0. pose proof Hwf0 as [Hwf2 Hwf]. destruct vj as [[v l] js]. unfold wf3_ev, wf3x_ev, msg_ev in *. cbn [fst snd] in *. destruct v as [x|x].
   - unfold mstep. cbn [fst snd gstep m_g m_sent m_st].
     destruct (step e (nA (g_net (m_g M))) x) as [a' o] eqn:E.
     constructor; cbn [m_g m_st g_net g_accB nstep]; rewrite ?E; cbn [nB dlvB]; assumption.
@@ -181,7 +210,9 @@ Proof.
     destruct (step e (nB (g_net (m_g M))) x) as [b' o] eqn:E. cbn [snd] in Hwf.
     destruct (accepts (nB (g_net (m_g M))) x) as [d|] eqn:Ea.
     + destruct (Hwf d eq_refl) as (Hlen & Hm & Hnr). specialize (Hnr eq_refl).
-      destruct (step_accept_msgs _ _ _ _ _ _ E Ea Hnr) as (Hrx & c1 & now & orcs & c2 & o2 & B1 & I1 & Er & Hnr2 & B2 & I2).
+      assert (Hfr : Forall frag_ok (dg_msgs d)).
+      { destruct (accepts_opens _ _ _ Ea) as [Hdi Ho]. destruct (Hwf2 d Hdi Ho) as [Hin _]. exact (HWi l d Hin). }
+      destruct (step_accept_msgs _ _ _ _ _ _ E Ea Hnr Hfr) as (Hrx & c1 & now & orcs & c2 & o2 & B1 & I1 & Er & Hnr2 & B2 & I2).
       rewrite <- B1 in HW.
       destruct (recv_msgs_deliver _ _ _ _ _ _ _ _ Hlen HW Hrec Hm Er Hnr2) as (HW' & Hrec' & extra & Hinc & C2 & C3).
       assert (Hnew : (match x with EGetMessages | EDisconnect _ => [] | _ => new_incoming (c_incoming (nB (g_net (m_g M)))) (c_incoming b') end)
@@ -222,6 +253,7 @@ Proof.
     + constructor; constructor.
     + intros s ks H. discriminate H.
     + intros i dA ks k [].
+    + intros i d [].
   - constructor; cbn.
     + reflexivity.
     + intros j [].
@@ -235,7 +267,7 @@ Proof.
   - destruct Hwf as [Hwf2 _]. exact (J_step e S K (m_g M) (fst vj) HJ Hwf2).
   - apply gstep_Inc; assumption.
   - eapply SInv_step; eassumption.
-  - eapply BInv_step; eassumption.
+  - eapply BInv_step; [apply HS|eassumption|eassumption].
 Qed.
 
 Theorem J3_run e S K vs : forall M, 0 <= e_max_payload e -> J3 S K M -> wf3_run e M vs -> J3 S K (mrun e M vs).
@@ -261,7 +293,7 @@ Lemma J3_with_B S K M b :
   c_bf_pkt b = c_bf_pkt (nB (g_net (m_g M))) -> c_bf_msg b = c_bf_msg (nB (g_net (m_g M))) ->
   J3 S K M -> J3 S K (with_B M b).
 Proof.
-  intros E1 E2 [[HA HAB HND HABw HB Hacc HBA HBAw] HI [HN HP HC] [HW Hrec HD Hacc2]].
+  intros E1 E2 [[HA HAB HND HABw HB Hacc HBA HBAw] HI [HN HP HC HWi] [HW Hrec HD Hacc2]].
   constructor; [constructor|exact HI|constructor|constructor]; cbn; try assumption.
   - unfold GI in *. rewrite E1. exact HB.
   - rewrite E2. exact HW.
@@ -341,7 +373,7 @@ Theorem success_delivered_step e S K M x l js a' o id :
   step e (nA (g_net (m_g M))) x = (a', o) -> In (OCallback id true) o ->
   big_id e (m_sent M) id \/ delivered_as M id.
 Proof.
-  intros [HJ HI [_ _ HC] [_ _ _ Hacc]] HPF [Hwf2 _] E Hin. cbn [fst] in Hwf2.
+  intros [HJ HI [_ _ HC _] [_ _ _ Hacc]] HPF [Hwf2 _] E Hin. cbn [fst] in Hwf2.
   destruct (step_true_src _ _ _ _ _ _ HI E Hin) as (a0 & d & Hpre & Hop & [(s & t & ks & k & Hpend & Hack & Hg & Hk & Hf)|HF]);
     [right|left; exact (HPF id HF)].
   destruct (acked_recent _ _ _ _ _ _ _ HJ Hwf2 Hpre Hop s t Hpend Hack) as (i & dA & Hs & Hi & Hrec & HAB & HW & HaccB).
